@@ -47,8 +47,8 @@ Definition op_of (round : tok) (r : string) (x : option response) : option opera
     end
   else None.
 
-Lemma pm_prop_saves m req h i4 op h' o :
-  pm_prop m req h i4 op = ROk h' o -> o = op /\ tget' (ns_rounds (h_st h')) (m_round m) = Some (dump_of i4).
+Lemma pm_prop_saves put m req h i4 op h' o :
+  pm_prop put m req h i4 op = ROk h' o -> o = op /\ tget' (ns_rounds (h_st h')) (m_round m) = Some (dump_of i4).
 Proof.
   unfold pm_prop. destruct (String.eqb (m_event m) ev_sgn_start).
   - destruct (m_tasks m) as [tasks|]; [|discriminate]. destruct req; try discriminate.
@@ -59,9 +59,9 @@ Proof.
     apply aput_same.
 Qed.
 
-Theorem accepted_message_persists_round_step now m req h inst h' op :
+Theorem accepted_message_persists_round_step put now m req h inst h' op :
   restorable inst ->
-  pm_tail now m req h inst = ROk h' op ->
+  pm_tail put now m req h inst = ROk h' op ->
   exists d r x, round_step now (dump_of inst) (m_event m) req = SOk d r x /\
                 tget' (ns_rounds (h_st h')) (m_round m) = Some d /\
                 op = op_of (m_round m) r x.
@@ -118,13 +118,13 @@ Qed.
 
 (* the body of processMessage below the signature check, for a round that is not in a cancelled
    state (no lazy restart, no early exit) *)
-Lemma process_message_plain now st m inst :
+Lemma process_message_plain put now st m inst :
   get_instance {| h_st := st; h_tr := [] |} (m_round m) true = ROk {| h_st := st; h_tr := [] |} inst ->
   has_suffix (i_dstate inst) "_error" = false -> has_suffix (i_dstate inst) "_timeout" = false ->
   String.eqb (m_event m) ev_sig_reconstructed = false ->
   String.eqb (m_event m) ev_sig_recon_failed = false ->
-  forall h' op, process_message now {| h_st := st; h_tr := [] |} m = ROk h' op ->
-  exists req, m_req m = MFsm req /\ pm_tail now m req {| h_st := st; h_tr := [] |} inst = ROk h' op.
+  forall h' op, process_message put now {| h_st := st; h_tr := [] |} m = ROk h' op ->
+  exists req, m_req m = MFsm req /\ pm_tail put now m req {| h_st := st; h_tr := [] |} inst = ROk h' op.
 Proof.
   intros Eg He Ht E1 E2 h' op H. unfold process_message in H. rewrite Eg in H.
   destruct (negb (String.eqb (m_event m) ev_sig_init) && _); [discriminate|].
@@ -133,12 +133,12 @@ Proof.
 Qed.
 
 (* every accepted FSM message of a stored round that is not in a cancelled state *)
-Theorem process_message_refines_round_step now st m d0 h' op :
+Theorem process_message_refines_round_step put now st m d0 h' op :
   tget' (ns_rounds st) (m_round m) = Some d0 -> d_state d0 <> "" ->
   has_suffix (d_state d0) "_error" = false -> has_suffix (d_state d0) "_timeout" = false ->
   String.eqb (m_event m) ev_sig_reconstructed = false ->
   String.eqb (m_event m) ev_sig_recon_failed = false ->
-  process_message now {| h_st := st; h_tr := [] |} m = ROk h' op ->
+  process_message put now {| h_st := st; h_tr := [] |} m = ROk h' op ->
   exists req d r x, m_req m = MFsm req /\ round_step now d0 (m_event m) req = SOk d r x /\
                     tget' (ns_rounds (h_st h')) (m_round m) = Some d /\ op = op_of (m_round m) r x.
 Proof.
@@ -149,9 +149,9 @@ Proof.
   assert (Eg : get_instance {| h_st := st; h_tr := [] |} (m_round m) true = ROk {| h_st := st; h_tr := [] |} inst).
   { unfold get_instance. cbn [h_st]. rewrite Hd, Ef. reflexivity. }
   rewrite <- Hst in He, Ht.
-  destruct (process_message_plain now st m inst Eg He Ht E1 E2 h' op H) as (req & Hreq & Htail).
+  destruct (process_message_plain put now st m inst Eg He Ht E1 E2 h' op H) as (req & Hreq & Htail).
   pose proof (owned_restorable inst (restored_is_owned d0 inst Ef Hne)) as Hr.
-  destruct (accepted_message_persists_round_step now m req _ inst h' op Hr Htail) as (d & r & x & Hrs & Hs & Hop).
+  destruct (accepted_message_persists_round_step put now m req _ inst h' op Hr Htail) as (d & r & x & Hrs & Hs & Hop).
   exists req, d, r, x. rewrite Hdump in Hrs. auto.
 Qed.
 
@@ -166,11 +166,11 @@ Proof.
   - revert Ec. vm_compute in Et. inversion Et; subst. vm_compute. discriminate.
 Qed.
 
-Theorem first_message_refines_round_step now st m h' op :
+Theorem first_message_refines_round_step put now st m h' op :
   tget' (ns_rounds st) (m_round m) = None ->
   String.eqb (m_event m) ev_sig_reconstructed = false ->
   String.eqb (m_event m) ev_sig_recon_failed = false ->
-  process_message now {| h_st := st; h_tr := [] |} m = ROk h' op ->
+  process_message put now {| h_st := st; h_tr := [] |} m = ROk h' op ->
   exists req d r x, m_req m = MFsm req /\ round_step now initial_dump_of (m_event m) req = SOk d r x /\
                     tget' (ns_rounds (h_st h')) (m_round m) = Some d /\ op = op_of (m_round m) r x.
 Proof.
@@ -183,8 +183,8 @@ Proof.
   assert (Hst : i_dstate inst = "__idle") by (exact (f_equal d_state Hdump)).
   assert (He : has_suffix (i_dstate inst) "_error" = false) by (rewrite Hst; reflexivity).
   assert (Ht : has_suffix (i_dstate inst) "_timeout" = false) by (rewrite Hst; reflexivity).
-  destruct (process_message_plain now st m inst Eg He Ht E1 E2 h' op H) as (req & Hreq & Htail).
-  destruct (accepted_message_persists_round_step now m req _ inst h' op (live_restorable _ Hl) Htail) as (d & r & x & Hrs & Hs & Hop).
+  destruct (process_message_plain put now st m inst Eg He Ht E1 E2 h' op H) as (req & Hreq & Htail).
+  destruct (accepted_message_persists_round_step put now m req _ inst h' op (live_restorable _ Hl) Htail) as (d & r & x & Hrs & Hs & Hop).
   exists req, d, r, x. rewrite Hdump in Hrs. auto.
 Qed.
 
@@ -193,7 +193,7 @@ Qed.
 Example refines_example :
   let st := run_msgs (empty_node 2%N 3%N) [(777%Z, ex_prop 9%N)] in
   let m := ex_confirm 9%N in
-  match tget' (ns_rounds st) 9%N, process_message 777%Z {| h_st := st; h_tr := [] |} m, m_req m with
+  match tget' (ns_rounds st) 9%N, process_message true 777%Z {| h_st := st; h_tr := [] |} m, m_req m with
   | Some d0, ROk h' op, MFsm req =>
       has_suffix (d_state d0) "_error" = false /\ has_suffix (d_state d0) "_timeout" = false /\
       match round_step 777%Z d0 (m_event m) req with
@@ -244,11 +244,11 @@ Definition refined (now : Z) (st : nstate) (m : message) (d0 : dump) (h' : hs) (
                        round_step now d1 (m_event m) req = SOk d r x /\
                        tget' (ns_rounds (h_st h')) (m_round m) = Some d /\ op = op_of (m_round m) r x.
 
-Theorem process_message_refines_round_step_any_state now st m d0 h' op :
+Theorem process_message_refines_round_step_any_state put now st m d0 h' op :
   tget' (ns_rounds st) (m_round m) = Some d0 -> d_state d0 <> "" ->
   String.eqb (m_event m) ev_sig_reconstructed = false ->
   String.eqb (m_event m) ev_sig_recon_failed = false ->
-  process_message now {| h_st := st; h_tr := [] |} m = ROk h' op ->
+  process_message put now {| h_st := st; h_tr := [] |} m = ROk h' op ->
   refined now st m d0 h' op.
 Proof.
   intros Hd Hne E1 E2 H.
@@ -261,10 +261,10 @@ Proof.
   rewrite E1, E2 in H.
   destruct (has_suffix (i_dstate inst) "_error" && _); [inversion H; subst; left; auto|]. cbv zeta in H.
   assert (Hfin : forall i2, live i2 -> restarts now d0 (dump_of i2) ->
-            match m_req m with MFsm req => pm_tail now m req {| h_st := st; h_tr := [] |} i2 | _ => RErr {| h_st := st; h_tr := [] |} end = ROk h' op ->
+            match m_req m with MFsm req => pm_tail put now m req {| h_st := st; h_tr := [] |} i2 | _ => RErr {| h_st := st; h_tr := [] |} end = ROk h' op ->
             refined now st m d0 h' op).
   { intros i2 Hl2 Hsd2 Ht. destruct (m_req m) as [req| |] eqn:Ereq; try discriminate.
-    destruct (accepted_message_persists_round_step now m req _ i2 h' op (live_restorable _ Hl2) Ht) as (d & r & x & Hrs & Hs & Hop).
+    destruct (accepted_message_persists_round_step put now m req _ i2 h' op (live_restorable _ Hl2) Ht) as (d & r & x & Hrs & Hs & Hop).
     right. exists req, (dump_of i2), d, r, x. auto. }
   (* from step 5 on, for any live instance reached from the stored dump by restarts *)
   assert (Hstep5 : forall i, live i -> restarts now d0 (dump_of i) ->
@@ -273,7 +273,7 @@ Proof.
      else match (if has_suffix (i_dstate i) "_timeout" && has_prefix (i_dstate i) "state_signing_"
                  then match p_sgn (i_payload i) with Some _ => pm_restart now m {| h_st := st; h_tr := [] |} i | None => RPanic end
                  else ROk {| h_st := st; h_tr := [] |} i) with
-          | ROk h2 inst2 => match m_req m with MFsm req => pm_tail now m req h2 inst2 | _ => RErr h2 end
+          | ROk h2 inst2 => match m_req m with MFsm req => pm_tail put now m req h2 inst2 | _ => RErr h2 end
           | RErr h2 => RErr h2
           | RPanic => RPanic
           end) = ROk h' op -> refined now st m d0 h' op).
